@@ -3,6 +3,7 @@ import DiskfsModel.Model.Ext4.ReaderCfg
 import DiskfsModel.Model.Ext4.SparseRead
 import DiskfsModel.Model.Ext4.InodeLoc
 import Driver.Ext4Img
+import Driver.Ext4Dec
 namespace Driver.Ext4Ref
 open Diskfs Driver Diskfs.Ext4.Reader
 
@@ -165,6 +166,10 @@ def pureOp (op : String) (args : List String) : String :=
   | "ext4ref.xattr" => Driver.Ext4Ref.xattr args
   | "ext4ref.sb" => Driver.Ext4Ref.sb args
   | "ext4ref.gate" => Driver.Ext4Ref.gate args
+  | "ext4ref.inodedec" => Driver.Ext4Dec.inodedec args
+  | "ext4ref.dirblock" => Driver.Ext4Dec.dirblock args
+  | "ext4ref.gatetbl" => Driver.Ext4Dec.gatetbl args
+  | "ext4ref.csumdec" => Driver.Ext4Dec.csumdec args
   | "ext4ref.sread" => Driver.Ext4Ref.sread args
   | "ext4ref.gd" => Driver.Ext4Ref.gd args
   | "ext4ref.inoloc" => Driver.Ext4Ref.inoloc args
